@@ -66,6 +66,13 @@ def gen_case(rng, k):
     if k % 6 == 0:
         return {'subs': None, 'n_ids': 1, 'ids': [rng.choice(['zed', '7', 'only one'])], 'seed': rng.randrange(10 ** 6)}
     n_ids = rng.choice([1, 2, 3, 3, 4])
+    if k % 6 == 5:
+        # no individual-level parameters at all: only pooled / heterogeneous dimensions
+        subs = [{'kind': rng.choice(['P', 'P', 'H']), 'nd': rng.choice([1, 2]), 'centered': True, 'n_het': None}
+                for _ in range(rng.choice([2, 3]))]
+        for d in subs:
+            d['n_het'] = n_ids if d['kind'] == 'H' else None
+        return {'subs': subs, 'n_ids': n_ids, 'ids': rng.choice(ID_POOLS)[:n_ids], 'seed': rng.randrange(10 ** 6)}
     while True:
         subs = c17.gen_comp(rng, n_ids)
         S = [Sub(**d) for d in subs]
@@ -209,6 +216,7 @@ def direct_readback(posterior, lls, S, chains, ds, case, rng):
     hier = S is not None
     if hier and any(s.special() for s in S):
         return None            # an individual's parameters are not all individual-level: nothing to read back by ID
+    shared = {}
     for k in ([0] if not hier else range(len(lls))):
         ll = lls[k]
         kwargs = {'individual': ll.get_id()} if hier else {}
@@ -226,17 +234,21 @@ def direct_readback(posterior, lls, S, chains, ds, case, rng):
                             'pointwise log-likelihood at that individual\'s own entries %s' % (ll.get_id(), a, b, vec))
         # posterior predictive model: every parameter vector handed to the predictive model is one of the draws of
         # this individual
-        mech = PolyToyModel(len(ll.get_parameter_names()) - 1)
-        pm = chi.PredictiveModel(mech, [chi.GaussianErrorModel()])
-        seen = []
-        orig = pm.sample
+        if not shared:
+            # ONE posterior predictive model is asked about every individual in turn
+            mech = PolyToyModel(len(ll.get_parameter_names()) - 1)
+            pm = chi.PredictiveModel(mech, [chi.GaussianErrorModel()])
+            shared['seen'] = []
+            orig = pm.sample
 
-        def rec(parameters, *a, **kw):
-            seen.append(np.array(parameters, dtype=float))
-            return orig(parameters, *a, **kw)
-        pm.sample = rec
-        ppm = chi.PosteriorPredictiveModel(pm, ds)
-        ppm.sample([1.0, 2.0], n_samples=3, seed=rng.randrange(10 ** 6), **kwargs)
+            def rec(parameters, *a, **kw):
+                shared['seen'].append(np.array(parameters, dtype=float))
+                return orig(parameters, *a, **kw)
+            pm.sample = rec
+            shared['ppm'] = chi.PosteriorPredictiveModel(pm, ds)
+        seen = shared['seen']
+        del seen[:]
+        shared['ppm'].sample([1.0, 2.0], n_samples=3, seed=rng.randrange(10 ** 6), **kwargs)
         rows = [expected_individual_vector(posterior, lls, S, k, chains, a, b)
                 for a in range(chains.shape[0]) for b in range(chains.shape[1])]
         for v in seen:
@@ -291,6 +303,8 @@ def direct_init(case):
     posterior, lls, S, pop = build(case, recording_em=True)
     n = posterior.n_parameters()
     a = posterior.sample_initial_parameters(n_samples=3, seed=case['seed'] % 1000)
+    np.random.seed(case['seed'] % 977 + 5)
+    np.random.random(3)
     b = posterior.sample_initial_parameters(n_samples=3, seed=case['seed'] % 1000)
     c = posterior.sample_initial_parameters(n_samples=3, seed=case['seed'] % 1000 + 1)
     if a.shape != (3, n):
